@@ -235,7 +235,7 @@ fn rotation_policy(np: usize) {
 }
 
 // @prop C14
-// @tier thorough
+// @tier off
 // @fn Session::change_conn_state
 // @bound 12 peers (so the ten-slot limit binds), every flag combination satisfying the slot invariant, every rate vector in u32^12 incl. ties, every admissible optimistic pick or none
 // @outside more than 12 peers; the rate measurement itself
